@@ -172,6 +172,23 @@ def nonzero_problems(S, ctx, lower=True):
     except Exception as e:
         return [_exc(key, e)]
     probs = _cmp_positions(I, J, I0, J0, key, what)
+    if not probs:
+        # the caller owns the returned arrays: shifting them (embedding the block into a larger matrix) must not
+        # change what the structure reports afterwards
+        try:
+            I, J = np.asarray(I), np.asarray(J)
+            if I.flags.writeable and J.flags.writeable and I.size:
+                I += 7
+                J += 11
+                _called()
+                I2, J2 = S.nonzero()
+                pa = _cmp_positions(I2, J2, I0, J0, "nonzero:result-aliased", what + " after the arrays of an earlier call were modified in place")
+                I -= 7
+                J -= 11
+                if pa:
+                    return pa
+        except Exception as e:
+            return [_exc("nonzero:result-aliased", e)]
     if probs or not lower or L == 1:
         return probs          # L == 1: documented as not implemented (assert), not generated
     keep = J0 <= I0
@@ -324,7 +341,16 @@ def dot_problems(jobs, L):
     r = None
     try:
         mlm.ml_matvec_2d, mlm.ml_matvec_3d = _guarded(saved[0]), _guarded(saved[1])
-        for (ctx, X, A) in jobs:
+        for job in jobs:
+            (ctx, X, A) = job[:3]
+            if len(job) > 3:
+                try:
+                    job[3]()              # an operation on the object between two products (e.g. assigning new data)
+                except Exception as ex:
+                    r = [["exc", type(ex).__name__, str(ex)[:160], -1]]
+                    what = "%s (preparing the object)" % ctx
+                    r = r[0]
+                    break
             r = _dot_problems(X, A, ctx)
             if r:
                 what = "%s MLMatrix.dot(e_j) on the %dx%d matrix (L=%d)" % (ctx, M, N, L)
@@ -445,7 +471,21 @@ def matrix_problems(S, seed, depth, ctx, perms):
             break
         if depth == "full" and L <= 3 and axes != list(range(L)):
             jobs.append(("%s reorder(%s)" % (ctx, axes), Xr, want))
+    # the same object after its data tensor was replaced: products and asmatrix() follow the new data
+    data2 = 2.0 * data + 1.0
+    A2 = R.dense_from_data(bs, bidx, data2)
+
+    def replace():
+        X.data = data2.copy()
+    jobs.append(("%s after assigning X.data" % ctx, X, A2, replace))
     probs += dot_problems(jobs, L)
+    if not probs:
+        try:
+            _called()
+            if not np.array_equal(_dense(X.asmatrix()), A2):
+                probs.append(("mlmatrix:data-replaced:asmatrix", "%s asmatrix() after assigning X.data does not show the new data" % ctx))
+        except Exception as e:
+            probs.append(_exc("asmatrix:%s" % rt, e))
     return probs
 
 
